@@ -2,6 +2,7 @@ import VModel.Spec
 import VProofs.Lemmas.MergeCorrect
 import VProofs.Lemmas.ScorePredict
 import VProofs.Lemmas.ScoreOverwrite
+import VProofs.Lemmas.ScoreLocal
 /-!
 # C01 — Boundary scores and decisions equal the pointwise linear model
 
@@ -140,6 +141,18 @@ theorem C01_states_written (cfg : Cfg) (m : WModel) (pt : Bool) (p : Predictor) 
       (pt = true ∧ cfg.tagPred = true ∧ m.tagModels ≠ []) ∨ (cfg.cache = true ∧ m.typeW ≤ 3)) :=
   C01O.new_writes cfg m pt p hp
 
+/-- locality of the linear model: the score of a boundary depends only on the `R` characters on either side of it, where `R`
+bounds both windows and the length of every dictionary word — whatever precedes and follows that stretch of text, and however
+long the text is.  (With `C01_scores` the same holds for the predictor's scores and decisions.) -/
+theorem C01_score_local (m : WModel) (hm : WFModel m) (R : Nat)
+    (hc : m.charW ≤ R) (ht : m.typeW ≤ R) (hd : ∀ d ∈ m.dict, d.word.length ≤ R)
+    (pre pre' mid post post' : List Char) (k : Nat) (hk1 : R ≤ k + 1) (hk2 : k + 1 + R ≤ mid.length) :
+    specScore m (pre ++ mid ++ post) (pre.length + k) = specScore m (pre' ++ mid ++ post') (pre'.length + k) :=
+  have hts := fun d h => ⟨(hm.type_shape d h).1, (hm.type_shape d h).2.1, (hm.type_shape d h).2.2.1⟩
+  have hds := fun d h => ⟨(hm.dict_shape d h).1, (hm.dict_shape d h).2.2⟩
+  (C01Loc.specScore_local m hm.char_shape hts hds R hc ht hd pre mid post k hk1 hk2).trans
+    (C01Loc.specScore_local m hm.char_shape hts hds R hc ht hd pre' mid post' k hk1 hk2).symm
+
 /-! ## non-vacuity: a concrete well-formed model (with a tag model, so that both the plain and the tag-aware scorers are
 built) and a sentence satisfying the hypotheses of `C01_scores` -/
 
@@ -165,6 +178,19 @@ example : (Predictor.new { fixed := false, cache := false, tagPred := false } C0
 example : (Predictor.new {} C01_exModel true).isOk = true := by decide
 
 example : specScores C01_exModel C01_exSentence.text = [1, 0] := by decide
+
+/-- non-vacuity of `C01_score_local`: `R = 2` bounds both windows (1) and the dictionary word (2 characters); in
+`mid = "abab"` the boundary `k = 1` has `R` characters on either side (both side conditions hold with equality) -/
+example : C01_exModel.charW ≤ 2 ∧ C01_exModel.typeW ≤ 2 ∧ (∀ d ∈ C01_exModel.dict, d.word.length ≤ 2) ∧
+    2 ≤ 1 + 1 ∧ 1 + 1 + 2 ≤ ['a', 'b', 'a', 'b'].length := by decide
+example : specScore C01_exModel (['b', 'a'] ++ ['a', 'b', 'a', 'b'] ++ ['a']) (2 + 1) = 1 ∧
+    specScore C01_exModel ([] ++ ['a', 'b', 'a', 'b'] ++ ['b', 'b']) (0 + 1) = 1 := by decide
+/-- one character fewer on the right (`k + 1 + R = mid.length + 1`) and the conclusion fails -/
+example : specScore C01_exModel ([] ++ ['a', 'b', 'a'] ++ ['b']) (0 + 1)
+    ≠ specScore C01_exModel ([] ++ ['a', 'b', 'a'] ++ ['a']) (0 + 1) := by decide
+/-- one character fewer on the left (`k + 1 = R - 1`) and the conclusion fails -/
+example : specScore C01_exModel (['a'] ++ ['b', 'a', 'b'] ++ []) (1 + 0)
+    ≠ specScore C01_exModel (['b'] ++ ['b', 'a', 'b'] ++ []) (1 + 0) := by decide
 example : specBounds C01_exModel C01_exSentence.text = [B.W, B.N] := by decide
 
 /-! ## non-vacuity of `C01_predict_overwrites` and the counterexample to the unconditional equality -/
